@@ -281,8 +281,21 @@ def run(ctx):
     tr_fail = None
     if rc != 0 or not m or len(lists) != 2 * len(gens):
         ctx.corr_broken.append('C14 model evaluation failed: %s' % out[-400:])
-        return
-    tr_fail = [[int(t) for t in re.findall(r'\d+', g)] for g in (m.group(1), m.group(2))]
+        # search for a concrete failing input anyway: the DOCUMENTED prototypes do not depend on the
+        # translated generator functions (Front/Protos.v only), so the compile matrix can still run
+        body2 = ['From Coq Require Import List NArith Bool String.', 'Import ListNotations.',
+                 'From BT.Front Require Import Prefix CTypes Protos.', 'Open Scope N_scope.']
+        for g in gens:
+            body2.append('Eval vm_compute in (glue_lines %s).' % cfg_coq(g['doc'], g['iden']))
+        rc2, out2 = run_cases_v('c14_cases_doc', '\n'.join(body2) + '\n', ctx.scratch)
+        lists2 = parse_string_lists(out2)
+        if rc2 != 0 or len(lists2) != len(gens):
+            return
+        lists = []
+        for l in lists2:
+            lists += [l, l]
+        m = None
+    tr_fail = [[int(t) for t in re.findall(r'\d+', g)] for g in (m.group(1), m.group(2))] if m else [[], []]
     if tr_fail[0]:
         c = ct_cases[tr_fail[0][0]]
         ctx.corr_broken.append('Gen/PyFuns.ft_c_type disagrees with the real _ft_c_type on %d cases, first %r' % (len(tr_fail[0]), c))
